@@ -109,6 +109,23 @@ def requests(seed=1, size="quick"):
     for n in (-2, -1, 0, 1, 2, 3, 5, 8, 13, 20 if big else 16):
         for s in (-2, -1, 0, 1, 2, 3, 5, n - 1, n):
             out.append(("tabulation %d %d" % (n, s), lambda n=n, s=s: tabu(n, s)))
+    from fractions import Fraction
+    pdr = sys.modules.get("checkpoint_schedules.hrevolve_sequences.periodic_disk_revolve")
+    if pdr is None:
+        import importlib
+        pdr = importlib.import_module("checkpoint_schedules.hrevolve_sequences.periodic_disk_revolve")
+
+    def fr(x):
+        f = Fraction(x)
+        return str(f.numerator) if f.denominator == 1 else "%d/%d" % (f.numerator, f.denominator)
+    for x in range(0, 8):
+        for y in range(-1, 8):
+            out.append(("beta %d %d" % (x, y), lambda x=x, y=y: _val(lambda: bf.beta(x, y))))
+    for cm in (1, 2, 3, 5, 12):
+        for uf in (1, 2, 0.5, 3):
+            for wd, rd in ((0, 0), (0.25, 0.25), (1.75, 1.75), (2, 2), (3, 0.5), (30, 30), (250, 205), (0, 7)):
+                out.append(("mxrr %d %s %s %s" % (cm, fr(uf), fr(rd), fr(wd)),
+                            lambda cm=cm, uf=uf, rd=rd, wd=wd: _val(lambda: pdr.mxrr_close_formula(cm, uf, rd, wd))))
     for _ in range(60):
         xs = [rng.randint(0, 9) for _ in range(rng.randint(1, 8))]
         out.append(("argmin " + " ".join(map(str, xs)), lambda xs=xs: _val(lambda: bf.argmin(list(xs)))))
